@@ -2,7 +2,7 @@
    FULL STATEMENT decided by the differential check (histories with reopen cycles, ingestion, clear, sealed journals;
    dump before close = dump after reopen; point reads = scans).  Proved parts are named ..._partial: they are the two
    halves of the replay rule that the repairs 3ed2a5b (active journal) and dc3abc4 (sealed journals) put in place. *)
-From FJ Require Import Bytes Codec Reader Lsm Tracker Db RecoverP.
+From FJ Require Import Bytes Codec Reader Lsm Tracker Db Prog RecoverP FilterP.
 
 (* a journal batch (items and clears) that every keyspace's tables already cover is not replayed: table data that never
    went through the journal (bulk ingestion, compaction-filter output) is neither shadowed nor wiped *)
@@ -22,6 +22,16 @@ Proof. exact replay_uncovered_appended. Qed.
 Theorem C04_covered_example : covered 3 [c04_ks].
 Proof. exact covered_example. Qed.
 
+(* the FULL statement is REFUTED (known finding E17): the watermark the replay rule relies on — the keyspace's highest
+   persisted seqno — is not monotone.  A key deleted by an ingested tombstone reads as deleted, and after a reopen reads its
+   old value again, once a last-level compaction has evicted the tombstone.  Same history on the implementation:
+   corpus/C04/e17_ingested_tombstone_resurrected.txt *)
+Theorem C04_reopen_identity_refuted :
+  let out := snd (run as_is (db_init MPlain []) c04_witness) in
+  nth 5 out (Ox ObOk) = Ox (ObOpt None) /\ nth 8 out (Ox ObOk) = Ox (ObOpt (Some [170%N])).
+Proof. exact ingested_tombstone_resurrects. Qed.
+
 Print Assumptions C04_covered_records_not_replayed_partial.
 Print Assumptions C04_uncovered_records_replayed_partial.
 Print Assumptions C04_covered_example.
+Print Assumptions C04_reopen_identity_refuted.
